@@ -74,8 +74,11 @@ def chan_forms(rng, s):
 
 def close(a, b, tol):
     a, b = np.asarray(a, dtype=float), np.asarray(b, dtype=float)
-    return a.shape == b.shape and bool(np.all(np.abs(a - b) <= tol * np.maximum(np.abs(b), 1e-300) + 1e-300) or
-                                       np.array_equal(a, b, equal_nan=True))
+    if a.shape != b.shape:
+        return False
+    with np.errstate(all='ignore'):
+        ok = (np.abs(a - b) <= tol * np.maximum(np.abs(b), 1e-300) + 1e-300) | (a == b) | (np.isnan(a) & np.isnan(b))
+    return bool(np.all(ok))
 
 
 def run(ctx):
